@@ -96,6 +96,25 @@ func c14Lend(t *testing.T, rec *ev.Rec, round int) {
 		}
 		env.refuse("breaker/borrow-draw", owner, lendtypes.NewMsgDraw(l.Owner, id, sdk.NewCoin(b.AmountOut.Denom, sdk.NewInt(1000))), on, off)
 		env.refuse("breaker/borrow-deposit-collateral", owner, lendtypes.NewMsgDepositBorrow(l.Owner, id, sdk.NewCoin(b.AmountIn.Denom, sdk.NewInt(1000))), on, off)
-		env.refuse("breaker/borrow-open", owner, lendtypes.NewMsgBorrow(l.Owner, b.LendingID, b.PairID, false, sdk.NewCoin(b.AmountIn.Denom, sdk.NewInt(200_000)), sdk.NewCoin(b.AmountOut.Denom, sdk.NewInt(1000))), on, off)
+		// MsgBorrow on a pair the owner already borrows on enlarges that position (deposit + draw); the loan must be
+		// worth more than the module's minimum of one dollar, and the pledge must be available in the lend position
+		if cur, ok := c.App.LendKeeper.GetLend(c.Ctx(), b.LendingID); ok && cur.AvailableToBorrow.GT(sdk.NewInt(10_000_000)) {
+			if p, found := e.pair(b.PairID); found {
+				x := cur.AvailableToBorrow.QuoRaw(10)
+				max := e.maxLoan(p, cur.PoolID, p.AssetIn, x.BigInt())
+				loan := sdk.NewIntFromBigInt(max).MulRaw(40).QuoRaw(100)
+				if loan.GT(sdk.NewInt(2_000_000)) {
+					env.refuse("breaker/borrow-enlarge-by-borrow-message", owner, lendtypes.NewMsgBorrow(l.Owner, b.LendingID, b.PairID, false, sdk.NewCoin(b.AmountIn.Denom, x), sdk.NewCoin(b.AmountOut.Denom, loan)), on, off)
+				}
+			}
+		}
 	}
+	c14LendCells(e, env, on, off)
+	rec.Floor("live:breaker/borrow-open/same-pool", 2)
+	rec.Floor("live:breaker/borrow-alternate/same-pool", 2)
+	rec.Floor("lend_price_cells_checked", 20)
+	rec.Floor("lend_price_liquidate_cells_checked", 8)
+	rec.Floor("lend_price_sweep_cells_checked", 4)
+	rec.Floor("lend_breaker_liquidate_cells_checked", 4)
+	rec.Floor("lend_sweep_cells_live", 2)
 }
